@@ -79,10 +79,7 @@ Proof.
   apply (lower_c_not c x Hc N). exact E.
 Qed.
 
-(* the authority as Tornado sees it: optional "userinfo@", host, optional ":port" *)
-Definition authority (ui : option text) (host : text) (port : option text) : text :=
-  (match ui with Some u => u ++ [64] | None => [] end) ++ host
-  ++ (match port with Some p => 58 :: p | None => [] end).
+(* [authority] (optional "userinfo@", host, optional ":port") is defined in Model.v *)
 
 Theorem normalized_netloc_rfc : forall scheme ui host port,
   ~ In 64 host -> (forall p, port = Some p -> ~ In 64 p /\ ~ In 58 p) ->
